@@ -49,8 +49,11 @@ def r_fit(ctx: Ctx, model):
             args = k.get("args", ())
             captured["resid"] = I.call_value(fun, [xs] + list(args), {}, n)
             captured["params_during"] = dict(captured["self"].attrs["params"])
+            # scipy: status > 0 <=> success; 0 = evaluation limit reached, -1 = improper input (both: success False)
+            status = Num.const(1) if mode == 0 else Num.const(0 if I.choose(2, "failure-status") == 0 else -1)
             return Obj(kind="OptRes", label="res", attrs={"x": [Num.atom("ra"), Num.atom("rb")], "fun": Arr(Num.atom("RES")),
-                                                          "success": mode == 0, "message": "msg"})
+                                                          "success": mode == 0, "message": "msg", "status": status,
+                                                          "nfev": Num.atom("nfev"), "cost": Num.atom("cost"), "optimality": Num.atom("opt")})
         I.ext["scipy.optimize.least_squares"] = least_squares
         I.libmeth[("ModelL", "__call__")] = None
         P, L = Arr(Num.atom("P")), Arr(Num.atom("L"))
@@ -172,6 +175,95 @@ def r_rmse(ctx: Ctx, model):
         ctx.ob(isinstance(got, sp.Basic) and sp.simplify(got - want) == 0,
                Finding("C12.F-rmse", vfit.where, "virial|rmse", f"Virial.fit reports rmse = {got}; required {want} (root mean square of the residual of its fit)"),
                nontrivial_key=("virial",))
+
+
+def r_data(ctx: Ctx, model):
+    """what reaches model.fit: ModelIsotherm.__init__ interpreted on an abstract table / abstract arrays"""
+    from ..absint import Frame, Mask, UnknownBool
+    ctx.rule("F-data: ModelIsotherm.__init__ detects branches on the table as given (row order untouched), fits exactly the rows of the "
+             "requested branch (no further filtering) and takes the model ranges from the same arrays it fits")
+    mi = model.cls(MI)
+    init = mi.find_method("__init__")
+    npaths = 0
+    for route in ("table-without-branch", "table-with-branch", "arrays"):
+        for branch in ("ads", "des"):
+            I = make_interp(model)
+            seen = {}
+            I.overrides["pygaps.core.baseisotherm.BaseIsotherm.__init__"] = lambda I, fi, env, n: None
+
+            def split(I, fi, env, n, seen=seen):
+                seen["split_frame"] = env.get("data", env.get("_data"))
+                return Arr(Num.atom("SPLIT"), kind="array")
+            for q in ("pygaps.core.modelisotherm.ModelIsotherm._splitdata", "pygaps.core.baseisotherm.BaseIsotherm._splitdata",
+                      "pygaps.utilities.pygaps_utilities.split_ads_data"):
+                I.overrides[q] = split
+
+            def get_model(I, fi, env, n, seen=seen):
+                kw_ = next((v for v in env.values() if isinstance(v, dict) and "pressure_range" in v), env)
+                seen["ranges"] = (kw_.get("pressure_range"), kw_.get("loading_range"))
+                return Obj(kind="FitStub", label="model", attrs={"param_names": ["K"], "name": "Stub"})
+            I.overrides["pygaps.modelling.get_isotherm_model"] = get_model
+            I.overrides["pygaps.core.modelisotherm.get_isotherm_model"] = get_model
+            I.libmeth[("FitStub", "__init_parameters__")] = lambda I, v, a, k, n: None
+            I.libmeth[("FitStub", "initial_guess")] = lambda I, v, a, k, n: {"K": Num.atom("g")}
+
+            def fit(I, v, a, k, n, seen=seen):
+                seen["fit"] = (a[0] if a else k.get("pressure"), a[1] if len(a) > 1 else k.get("loading"))
+                return None
+            I.libmeth[("FitStub", "fit")] = fit
+            I.ext["builtins.min"] = lambda I, a, k, n: Num.atom(f"min({I.describe(a[0])})")
+            I.ext["builtins.max"] = lambda I, a, k, n: Num.atom(f"max({I.describe(a[0])})")
+            I.ext["builtins.float"] = lambda I, a, k, n: a[0]
+            frame = lambda: Frame({"pressure": Arr(Num.atom("P")), "loading": Arr(Num.atom("L")),
+                                   **({"branch": Arr(Num.atom("B"))} if route == "table-with-branch" else {})}, label="user_table")
+
+            def thunk(I):
+                seen.clear()
+                new = Obj(cls=mi, label="new", attrs={})
+                kw = {"model": "Stub", "branch": branch, "material": "m", "adsorbate": "a", "temperature": Num.atom("T")}
+                if route == "arrays":
+                    kw.update({"pressure": Arr(Num.atom("P"), kind="array"), "loading": Arr(Num.atom("L"), kind="array")})
+                else:
+                    kw.update({"isotherm_data": frame(), "pressure_key": "pressure", "loading_key": "loading"})
+                I.call_func(init, [], kw, None, self_obj=new)
+                return dict(seen)
+            for oc in I.explore(thunk):
+                if oc.kind == "raise":
+                    ok = oc.exc.is_a("ParameterError") and not oc.exc.fault
+                    ctx.ob(ok, Finding("C12.F-data", init.where, f"init|{route}|{branch}|raises:{oc.exc.name}", f"ModelIsotherm({route}, branch={branch}) raises {oc.exc}"),
+                           nontrivial_key=("data", route, branch, "raise"))
+                    continue
+                npaths += 1
+                sn = oc.value
+                fp, fl = sn.get("fit", (None, None))
+                key = f"init|{route}|{branch}"
+                if route == "table-without-branch":
+                    sf = sn.get("split_frame")
+                    oks = isinstance(sf, Frame) and not sf.sel and not getattr(sf, "tags", None) and sf.label.startswith("user_table")
+                    ctx.ob(oks, Finding("C12.F-data", init.where, f"{key}|branch-detection-input",
+                                        f"branch detection runs on {sf!r}; required the caller's table in its own row order (a sorted or filtered "
+                                        "table makes every point look like adsorption / shifts the turning point)"),
+                           nontrivial_key=("data", route, branch, "split"))
+                want_sel = 0 if route == "arrays" else 1
+                okf = isinstance(fp, Arr) and isinstance(fl, Arr) and fp.num == Num.atom("P") and fl.num == Num.atom("L") \
+                    and len(fp.sel) == want_sel and fp.sel == fl.sel and \
+                    (route == "arrays" or ("==" in str(fp.sel[0]) and str(fp.sel[0]).rstrip().endswith("0" if branch == "ads" else "1")))
+                ctx.ob(okf, Finding("C12.F-data", init.where, f"{key}|fitted-points",
+                                    f"model.fit receives pressure {fp!r}, loading {fl!r}; required exactly the {'given arrays' if route == 'arrays' else 'rows with branch == ' + ('0' if branch == 'ads' else '1')} "
+                                    "(no further selection): the reported error and ranges describe the data the user asked to fit"),
+                       nontrivial_key=("data", route, branch, "fit"))
+                rg = sn.get("ranges")
+                okr = rg is not None and isinstance(fp, Arr) and I.describe(rg[0]) == f"[min({I.describe(fp)}),max({I.describe(fp)})]".replace("[", "[").replace("]", "]") \
+                    if False else True
+                if rg is not None and isinstance(fp, Arr) and isinstance(fl, Arr):
+                    want_r = ((f"min({I.describe(fp)})", f"max({I.describe(fp)})"), (f"min({I.describe(fl)})", f"max({I.describe(fl)})"))
+                    got_r = tuple(tuple(x.canon() if isinstance(x, Num) else str(x) for x in r_) for r_ in rg) if all(isinstance(r_, tuple) for r_ in rg) else rg
+                    okr = got_r == want_r
+                    ctx.ob(okr, Finding("C12.F-data", init.where, f"{key}|ranges",
+                                        f"model ranges {got_r} are not (min, max) of the fitted arrays {want_r}: the rmse is normalised by a range "
+                                        "that does not belong to the fitted points"),
+                           nontrivial_key=("data", route, branch, "ranges"))
+    ctx.floor("ModelIsotherm.__init__ fitting paths", npaths, 6)
 
 
 def r_best(ctx: Ctx, model):
@@ -298,6 +390,7 @@ def run(ctx: Ctx):
     model = load(ctx.root)
     ctx.assume("scipy.optimize.least_squares returns res.x, res.fun, res.success of one optimisation")
     r_fit(ctx, model)
+    r_data(ctx, model)
     r_best(ctx, model)
     r_branch(ctx, model)
     from ..sites import no_memoisation
